@@ -1486,6 +1486,11 @@ class Tensor:
             kwargs["shape"] = new_shape
 
         swizzled = Tensor.fromFiber(**kwargs)
+        swizzled.setMutable(self.isMutable())
+
+        # Maintain the formats
+        for rank_id in rank_ids:
+            swizzled.setFormat(rank_id, self.getFormat(rank_id))
 
         # For each fiber, reset its active range
         frontier = [swizzled.getRoot()]
